@@ -3,7 +3,7 @@ CONSTANT MaxB = 40
 CONSTANT MaxMinP = 5
 CONSTANT MaxGases <- McMaxGases
 CONSTANT MaxBlocks = 3
-CONSTANT GovFull = FALSE
+CONSTANT GovFull = "some"
 CONSTANT EndOrder = "fee-then-gov"
 CONSTANT UnlimitedUsed = 12
 INVARIANT NonNeg
